@@ -111,7 +111,10 @@ class Signal:
                 # Allow user to implement a custom add_sensitivity function instead of __iadd__
                 self.sensitivity.add_sensitivity(ds)
             else:
-                self.sensitivity += ds
+                try:
+                    self.sensitivity += ds
+                except TypeError:  # In-place addition is not possible, e.g. when adding complex to real values
+                    self.sensitivity = self.sensitivity + ds
             return self
         except TypeError:
             if isinstance(ds, type(self.sensitivity)):
